@@ -17,7 +17,8 @@ from zope.interface.common import ABCInterfaceClass, ABCInterface
 from .common import wmod, newworld
 
 P = inspect.Parameter
-KINDS = ('function', 'method', 'body', 'abc', 'abc-noself', 'method-noself')
+KINDS = ('function', 'method', 'body', 'abc', 'abc-noself', 'method-noself',
+         'unbound', 'unbound-noself')
 # default values: not only numbers (a tuple is what %-formatting trips over)
 DEFAULTS = [0, (), (7,), 'two', None, (1, 2), 1.5, [3]]
 
@@ -84,11 +85,11 @@ def sigstring(exp):
 
 
 def eval_one(sig, kind):
-    self_ = kind in ('method', 'abc')
+    self_ = kind in ('method', 'abc', 'unbound')
     npos = sig[0] + sig[1]
     if sig[2] > npos and not self_:
         return 'skip', None          # one default more than parameters: self kinds only
-    if kind in ('abc-noself', 'method-noself'):
+    if kind in ('abc-noself', 'method-noself', 'unbound-noself'):
         # a method that takes its instance through *args
         if npos or sig[3] != '*args':
             return 'skip', None
@@ -118,6 +119,11 @@ def eval_one(sig, kind):
         bound = K().f
         m = fromMethod(bound)
         exp = expected(inspect.signature(bound), False)
+    elif kind in ('unbound', 'unbound-noself'):
+        # the way verifyClass describes a function found on a class: the first
+        # positional parameter, if there is one, is the instance
+        m = fromFunction(f, imlevel=1)
+        exp = expected(inspect.signature(f), kind == 'unbound')
     elif kind == 'body':
         I = InterfaceClass('IBody', (Interface,), {'f': f, '__module__': wmod()})
         m = I['f']
